@@ -1,9 +1,12 @@
 package gen
 
 import (
+	"sort"
+
 	"google.golang.org/protobuf/encoding/protowire"
 	"google.golang.org/protobuf/internal/encoding/messageset"
 	"google.golang.org/protobuf/reflect/protoreflect"
+	"google.golang.org/protobuf/reflect/protoregistry"
 	"google.golang.org/protobuf/zverifsim/sim"
 )
 
@@ -170,12 +173,12 @@ func (m *WMsg) appendTo(b []byte) []byte {
 
 // DenormStats says which rewrites a denormalisation applied.
 type DenormStats struct {
-	PaddedVarints, SplitMessages, Reordered, NonContiguous, Repacked, Duplicated, WrongWireType int
-	LazyTouched                                                                                 int // rewrites inside or on a lazy field
+	PaddedVarints, SplitMessages, Reordered, NonContiguous, Repacked, Duplicated, WrongWireType, EmptyPacked int
+	LazyTouched                                                                                              int // rewrites inside or on a lazy field
 }
 
 func (d *DenormStats) Total() int {
-	return d.PaddedVarints + d.SplitMessages + d.Reordered + d.NonContiguous + d.Repacked + d.Duplicated + d.WrongWireType
+	return d.PaddedVarints + d.SplitMessages + d.Reordered + d.NonContiguous + d.Repacked + d.Duplicated + d.WrongWireType + d.EmptyPacked
 }
 
 // Denormalise rewrites m in place into a legal but non-minimal encoding of
@@ -288,6 +291,40 @@ func denorm(r *sim.Rng, m *WMsg, intensity int, st *DenormStats, inLazy bool) {
 			out = append(out[:pos:pos], append([]*WNode{nd}, out[pos:]...)...)
 			st.WrongWireType++
 			if inLazy || IsLazy(fd) {
+				st.LazyTouched++
+			}
+		}
+	}
+	// a zero-length packed occurrence of a repeated scalar field or extension: legal, adds no element
+	// (a decoder may be left holding an empty list for a field the content does not have)
+	if m.MD != nil && r.Intn(1000) < intensity && !messageset.IsMessageSet(m.MD) && !m.MD.IsMapEntry() {
+		var cands []protoreflect.FieldDescriptor
+		fds := m.MD.Fields()
+		for i := 0; i < fds.Len(); i++ {
+			if fd := fds.Get(i); fd.IsList() && packable(fd) {
+				cands = append(cands, fd)
+			}
+		}
+		if m.MD.ExtensionRanges().Len() > 0 {
+			var xs []protoreflect.FieldDescriptor
+			protoregistry.GlobalTypes.RangeExtensionsByMessage(m.MD.FullName(), func(xt protoreflect.ExtensionType) bool {
+				if fd := xt.TypeDescriptor(); fd.IsList() && packable(fd) {
+					xs = append(xs, fd)
+				}
+				return true
+			})
+			sort.Slice(xs, func(i, j int) bool { return xs[i].Number() < xs[j].Number() })
+			// extensions twice: their containers remember an empty list as an entry
+			cands = append(cands, xs...)
+			cands = append(cands, xs...)
+		}
+		if len(cands) > 0 {
+			fd := cands[r.Intn(len(cands))]
+			nd := &WNode{Num: fd.Number(), Typ: protowire.BytesType, FD: fd}
+			pos := r.Intn(len(out) + 1)
+			out = append(out[:pos:pos], append([]*WNode{nd}, out[pos:]...)...)
+			st.EmptyPacked++
+			if inLazy {
 				st.LazyTouched++
 			}
 		}
